@@ -5,16 +5,16 @@ use std::collections::BTreeSet;
 
 pub const CLS: &[&str] = &[
     "a", "a.b", "a$b", "ab", "a.b.c", "b", "é.x", "a.a", "a.b$c", "z.Y$1", "a.", "aa", "a.b.d", "A", "a.b$", "I", "Lib",
-    "x.Long", "ü",
+    "x.Long", "ü", "😀.x", "a\u{2028}b", "e\u{301}",
 ];
 pub const ORIG: &[&str] = &[
     "com.A", "com.A$B", "org.x.Foo", "K", "com.é.Ü", "R8$$Synth", "p.q.Outer$Inner$1", "com.example.MainActivity",
     "kotlin.jvm.internal.Intrinsics",
 ];
-pub const METH: &[&str] = &["m", "n", "a", "<init>", "mm", "b", "é", "m$1"];
-pub const OMETH: &[&str] = &["foo", "bar", "baz", "<init>", "access$100", "lambda$x$0", "onCreate", "é"];
+pub const METH: &[&str] = &["m", "n", "a", "<init>", "mm", "b", "é", "m$1", "m😀"];
+pub const OMETH: &[&str] = &["foo", "bar", "baz", "<init>", "access$100", "lambda$x$0", "onCreate", "é", "f\u{85}g"];
 pub const ARGS: &[&str] = &["", "int", "int,java.lang.String", "android.view.View", "java.lang.Object[]", "a.b"];
-pub const FILES: &[&str] = &["Foo.kt", "R8$$SyntheticClass", "Bar.java", "x", "Ünï.kt"];
+pub const FILES: &[&str] = &["Foo.kt", "R8$$SyntheticClass", "Bar.java", "x", "Ünï.kt", "F😀.kt"];
 pub const TYPES: &[&str] = &["void", "int", "java.lang.String", "a.b[]", "boolean"];
 
 #[derive(Clone, Copy, PartialEq)]
@@ -599,4 +599,100 @@ pub fn emit_cache_queries(out: &mut Vec<String>, mapping: &[u8], r: &mut Rng, pe
     out.push(format!("s {}", hex(t.as_bytes())));
     let g = crate::trace::gen_signature(r, &u);
     out.push(format!("g {}", hex(g.as_bytes())));
+}
+
+/// large structure: class counts and method-group sizes around powers of two (binary search and
+/// range expansion edge cases), long strings (multi-byte length prefixes), 4-byte UTF-8 names
+pub fn gen_big_mapping(r: &mut Rng) -> String {
+    let ncls = *r.pick(&[63usize, 64, 65, 127, 128, 129, 255, 256, 257, 511, 512, 513, 1000, 1024, 1025]);
+    let nl = *r.pick(&["\n", "\r\n"]);
+    let mut names: Vec<String> = (0..ncls)
+        .map(|i| match r.below(6) {
+            0 => format!("p{}.C{}", i % 7, i),
+            1 => format!("c{:04}", i),
+            2 => format!("a.b${}", i),
+            3 => format!("é{}.😀{}", i % 3, i),
+            4 => format!("{}x{}", "q".repeat(1 + i % 5), i),
+            _ => format!("z{}", i),
+        })
+        .collect();
+    // file order is not sorted order
+    for i in (1..names.len()).rev() {
+        let j = r.below(i + 1);
+        names.swap(i, j);
+    }
+    if r.chance(1, 2) {
+        // one very long name: three-byte LEB128 length prefix
+        let k = r.below(names.len());
+        names[k] = format!("long.{}", "n".repeat(16384 + r.below(50)));
+    }
+    let special = r.below(ncls);
+    let group = *r.pick(&[1usize, 2, 3, 4, 7, 8, 9, 15, 16, 17, 31, 32, 33, 63, 64, 65, 100, 255, 256, 257]);
+    let mut s = String::new();
+    for (i, n) in names.iter().enumerate() {
+        s.push_str(&format!("com.example.Orig{} -> {}:{}", i, n, nl));
+        if r.chance(1, 9) {
+            s.push_str(&format!("# {{\"id\":\"sourceFile\",\"fileName\":\"F{}.kt\"}}{}", i, nl));
+        }
+        let nm = if i == special { group } else { r.below(3) };
+        for k in 0..nm {
+            let obf = if i == special { format!("m{}", k % 5) } else { format!("m{}", k) };
+            let a = 1 + (k * 3) % 60;
+            match r.below(4) {
+                0 => s.push_str(&format!("    void orig{}(int) -> {}{}", k, obf, nl)),
+                1 => s.push_str(&format!("    {}:{}:void orig{}():{}:{} -> {}{}", a, a + 2, k, 100 + k, 102 + k, obf, nl)),
+                2 => s.push_str(&format!("    {}:{}:int com.other.K{}.inl{}(int):{} -> {}{}", a, a + 2, k % 3, k, 7 + k, obf, nl)),
+                _ => s.push_str(&format!("    {}:{}:void orig{}(java.lang.String,int) -> {}{}", a, a, k % 4, obf, nl)),
+            }
+        }
+    }
+    s
+}
+
+/// queries for a big mapping: a sample of classes (first, last, middle, random, neighbours) and
+/// every method of the special classes
+pub fn emit_big_queries(out: &mut Vec<String>, mapping: &[u8], r: &mut Rng, q: QuerySel) {
+    let u = universe(mapping);
+    let mut sorted = u.classes.clone();
+    sorted.sort();
+    let mut picks: Vec<String> = Vec::new();
+    if !sorted.is_empty() {
+        for idx in [0, 1, sorted.len() / 2, sorted.len() - 1, sorted.len().saturating_sub(2)] {
+            picks.push(sorted[idx.min(sorted.len() - 1)].clone());
+        }
+        for _ in 0..25 {
+            picks.push(r.pick(&sorted).clone());
+        }
+    }
+    let n0 = picks.len();
+    for i in 0..n0.min(6) {
+        for n in neighbours(&picks[i].clone()).into_iter().take(2) {
+            picks.push(n);
+        }
+    }
+    picks.push("zzzz.unknown".into());
+    picks.sort();
+    picks.dedup();
+    let lines = line_set(&u, r, false);
+    for c in &picks {
+        if q.class {
+            out.push(format!("K {}", hex(c.as_bytes())));
+        }
+        let methods: Vec<&(String, String)> = u.methods.iter().filter(|(cc, _)| cc == c).collect();
+        for (_, m) in methods.iter().take(8) {
+            if q.method {
+                out.push(format!("T {} {}", hex(c.as_bytes()), hex(m.as_bytes())));
+            }
+            if q.lines {
+                for l in lines.iter().step_by(3) {
+                    out.push(format!("L {} {} {} ~", hex(c.as_bytes()), hex(m.as_bytes()), l));
+                }
+            }
+            if q.params {
+                for a in ["", "int", "java.lang.String,int", "nope"] {
+                    out.push(format!("P {} {} {}", hex(c.as_bytes()), hex(m.as_bytes()), hex(a.as_bytes())));
+                }
+            }
+        }
+    }
 }
